@@ -775,7 +775,11 @@ class FunctionReferenceWithArguments:
         for i in range(0, len(self.args)):
             result[unbound_parameter_names[len(partial_args) + i]] = self.args[i]
 
-        # And remaining kwargs
+        # And remaining kwargs. A keyword must not name a parameter that a positional argument
+        # already fills: the positional value would silently be dropped.
+        for name in unbound_parameter_names[: len(partial_args) + len(self.args)]:
+            if name in self.kwargs:
+                raise ValueError(f"Multiple values provided for argument '{name}'")
         result.update(self.kwargs)
 
         return result
